@@ -64,7 +64,7 @@ func init() {
 	vrt.Register(&vrt.Prop{
 		ID: "C10", Level: "exploration",
 		Rule: "case = a real loopback GMW mesh of 2-5 parties (CreateNetwork/JoinNetwork/Connect with PRNG join order and PRNG delays before Join, Connect and Run). Kind A: an n-argument program (generated: multipliers, comparators, dividers, AND batches of odd sizes; or a fixture) compiled for TargetGMW with AssignLevels by every party; oracle: every party's Run returns nil error and outputs equal to the reference evaluation of that circuit on all parties' inputs. " +
-			"Kind B: every party draws the same PRNG sequence of counts from Pool.Get (1, 63, 64, 65, 100, 4095..4097, 9000 ...); oracle per 64-bit word: (xor of all A shares) AND (xor of all B shares) == xor of all C shares, including the round-up bits. A quiescent deadlock (all gmw goroutines parked, byte counters unchanged, two dumps) is a violation; another timeout inconclusive. Distinct = hash(program, inputs, parties) / (parties, count sequence).",
+			"Kind B: every party draws the same PRNG sequence of counts from Pool.Get (1, 63, 64, 65, 100, 4095..4097, 9000 ...) at party-specific times (one party lags 10-200 ms, the others jitter 0-8 ms between calls, so the same Get is served from one batch at one party and across a refill at another); oracle per 64-bit word: (xor of all A shares) AND (xor of all B shares) == xor of all C shares, including the round-up bits. A quiescent deadlock (all gmw goroutines parked, byte counters unchanged, two dumps) is a violation; another timeout inconclusive. Distinct = hash(program, inputs, parties) / (parties, count sequence).",
 		Assumptions: []string{"loopback TCP", "the race detector is not an oracle here (known benign unsynchronised flags such as Pool.closed)"},
 		NumCases: func(t string) int {
 			if t == "thorough" {
@@ -197,6 +197,9 @@ func runC10(cs *vrt.Case) {
 		d1[i] = time.Duration(r.Intn(3000)) * time.Microsecond
 		d2[i] = time.Duration(r.Intn(3000)) * time.Microsecond
 	}
+	jseed := r.U64()
+	lagger := r.Intn(P + 1) // P: nobody lags
+	lag := time.Duration(r.Range(10, 200)) * time.Millisecond
 	for i := 0; i < P; i++ {
 		wg.Add(1)
 		go func(i int) {
@@ -215,7 +218,17 @@ func runC10(cs *vrt.Case) {
 				}
 				time.Sleep(d2[i])
 				if triples {
+					// parties reach Get at different pool fill levels: one
+					// party lags by a few batch generation times, the
+					// others jitter between calls
+					pr := vrt.Derive(jseed, "c10-jitter", i)
+					if i == lagger {
+						time.Sleep(lag)
+					}
 					for _, n := range counts {
+						if pr.Intn(3) == 0 {
+							time.Sleep(time.Duration(pr.Intn(8000)) * time.Microsecond)
+						}
 						t := &gmw.Triples{}
 						nets[i].Pool.Get(n, t)
 						res[i].tr = append(res[i].tr, t)
